@@ -44,6 +44,9 @@ type c16Node struct {
 	lastAt   time.Time
 	lastKind map[string]string // per member: last kind received (settling only)
 	userGot  int
+	gotM     int // member events / user events / queries received since the last wait
+	gotU     int
+	gotQ     int
 	gate     sync.Mutex // held while the application is "not reading"
 	stop     chan struct{}
 	paused   bool
@@ -51,6 +54,11 @@ type c16Node struct {
 	emitLast  map[string]string // per member: last kind emitted (settling only)
 	emitCount int               // events put in since the last wait
 	userCoal  int               // coalescable user events since the last wait
+	expM      int               // events sent since the last wait that no stage may hold back or merge
+	expU      int
+	expQ      int
+	ucoal     bool
+	mcoal     bool
 	ltime     uint64
 }
 
@@ -67,12 +75,15 @@ func (n *c16Node) collector() {
 				for _, m := range v.Members {
 					n.got = append(n.got, fmt.Sprintf("%s/%s/%s", k, hexs(m.Name), c16V(m)))
 					n.lastKind[m.Name] = k
+					n.gotM++
 				}
 			case serf.UserEvent:
 				n.got = append(n.got, fmt.Sprintf("u/%s/%s", hexs(v.Name), string(v.Payload)))
 				n.userGot++
+				n.gotU++
 			case *serf.Query:
 				n.got = append(n.got, "q/"+strings.TrimPrefix(v.Name, "q"))
+				n.gotQ++
 			default:
 				n.got = append(n.got, "unknown")
 			}
@@ -86,7 +97,7 @@ func (n *c16Node) collector() {
 
 func c16Start(snapshot, ucoal, mcoal bool) (*c16Node, error) {
 	n := &c16Node{evCh: make(chan serf.Event, 4), stop: make(chan struct{}), lastKind: map[string]string{},
-		emitLast: map[string]string{}, ltime: 100, coalesce: ucoal || mcoal}
+		emitLast: map[string]string{}, ltime: 100, coalesce: ucoal || mcoal, ucoal: ucoal, mcoal: mcoal}
 	conf := serf.DefaultConfig()
 	conf.Init()
 	conf.MemberlistConfig.BindAddr = c16BindIP().String()
@@ -151,6 +162,9 @@ func (n *c16Node) member(name string) (serf.Member, bool) {
 func (n *c16Node) emit(kind, name string, m serf.Member) string {
 	n.emitLast[name] = kind
 	n.emitCount++
+	if !n.mcoal {
+		n.expM++
+	}
 	return fmt.Sprintf("emit %s/%s/%s", kind, hexs(name), c16V(m))
 }
 
@@ -194,6 +208,9 @@ func (n *c16Node) settled() bool {
 	if n.userCoal > 0 && n.userGot == 0 {
 		return false
 	}
+	if n.gotM < n.expM || n.gotU < n.expU || n.gotQ < n.expQ {
+		return false
+	}
 	return true
 }
 
@@ -231,9 +248,11 @@ func (n *c16Node) wait(lossy bool) string {
 	items := n.got
 	n.got = nil
 	n.userGot = 0
+	n.gotM, n.gotU, n.gotQ = 0, 0, 0
 	n.mu.Unlock()
 	n.emitCount = 0
 	n.userCoal = 0
+	n.expM, n.expU, n.expQ = 0, 0, 0
 	if len(items) == 0 {
 		return "recv -"
 	}
@@ -350,6 +369,9 @@ func c16Exec(ops []string) []string {
 			if k > 0 {
 				n.emitLast[name] = "update"
 				n.emitCount += k
+				if !n.mcoal {
+					n.expM += k
+				}
 			}
 			outs = append(outs, fmt.Sprintf("emitn %d", k))
 		case f[0] == "uev" && len(f) == 4:
@@ -361,6 +383,9 @@ func c16Exec(ops []string) []string {
 			if f[2] == "c" {
 				n.userCoal++
 			}
+			if f[2] != "c" || !n.ucoal {
+				n.expU++
+			}
 			outs = append(outs, "ok")
 		case f[0] == "query" && len(f) == 3:
 			qn := "q" + f[2]
@@ -368,6 +393,7 @@ func c16Exec(ops []string) []string {
 				qn = "_serf_ping"
 			} else {
 				n.emitCount++
+				n.expQ++
 			}
 			if _, err := n.s.Query(qn, nil, nil); err != nil {
 				outs = append(outs, "error")
